@@ -76,7 +76,10 @@ type Lemma struct {
 	ReplayExpr string // Go boolean expression over the lemma's variables that must hold on the real code
 }
 
-type OpaqueDecl struct{ GoType, Sort string }
+type OpaqueDecl struct {
+	GoType, Sort string
+	OnDemand     bool
+}
 
 type ContractSet struct {
 	Specs    map[string]*SpecFunc
@@ -201,10 +204,10 @@ func (cs *ContractSet) LoadContractFile(path, pkgPath string, trusted bool) erro
 			curSpec.TableIn = f[2]
 		case "opaque":
 			f := strings.Fields(r.rest)
-			if len(f) != 2 {
-				return fmt.Errorf("%s:%d: opaque <pkg.Type> <Sort>", path, r.line)
+			if len(f) != 2 && !(len(f) == 3 && f[2] == "on-demand") {
+				return fmt.Errorf("%s:%d: opaque <pkg.Type> <Sort> [on-demand]", path, r.line)
 			}
-			cs.Opaque = append(cs.Opaque, OpaqueDecl{f[0], f[1]})
+			cs.Opaque = append(cs.Opaque, OpaqueDecl{GoType: f[0], Sort: f[1], OnDemand: len(f) == 3})
 		case "replay":
 			// replay <pkgdir>: <Go expression over the lemma variables>
 			if curLemma == nil {
